@@ -663,6 +663,14 @@ class ComputeGraph(MultiDiGraph):
         # Imports that the Jacobian assembly emits.  Must be declared BEFORE
         # generate_func_head, which materialises imports into the source file.
         code_gen.declare_local_array_imports()   # backend-specific (numpy / jax.numpy / ...)
+        # functions that appear only in the derivative (sign for absv, sin for a cos-only model, ...) have to be
+        # registered with the backend, otherwise the generated file does not import them
+        for d_expr in list(J0_entries.values()) + [d for ent in J_hist.values() for d in ent.values()]:
+            for f_atom in self._resolve_derivatives(d_expr).atoms(sp.Function):
+                try:
+                    code_gen.get_op(f_atom.func.__name__)
+                except (KeyError, AttributeError, TypeError):
+                    pass
         if sparse:
             if not getattr(code_gen, 'SUPPORTS_SPARSE_JACOBIAN', True):
                 raise NotImplementedError(
@@ -1013,7 +1021,7 @@ class ComputeGraph(MultiDiGraph):
             lambda e: (lambda s: s * (1 - s))(Function('sigmoid')(e.expr.args[0]))
         )
         expr = expr.replace(
-            lambda e: isinstance(e, Derivative) and e.expr.func.__name__ == 'absv',
+            lambda e: isinstance(e, Derivative) and e.expr.func.__name__ in ('absv', 'abs'),
             lambda e: Function('sign')(e.expr.args[0])
         )
         # Sympy wraps chain-rule applications of identity/sigmoid/absv in
